@@ -17,8 +17,8 @@
                      they had, and a new buffer is all Skip (a_new)
    This file contains nothing but the property theorems, each closed by [exact <lemma>]. *)
 From Coq Require Import ZArith List Bool.
-From Tickit Require Import RectDefs RBDefs RBSpec RBLemmas RBAbsLemmas RBInv RBProofs RBProps RBRestore RBTheorems RBWidth RBUtf8Bridge.
-From Tickit Require Utf8Defs.
+From Tickit Require Import RectDefs RBDefs RBSpec RBLemmas RBAbsLemmas RBInv RBProofs RBProps RBRestore RBTheorems RBWidth RBUtf8Bridge RBPenBridge.
+From Tickit Require Utf8Defs PenDefs PenProofs.
 Import ListNotations.
 Local Open Scope Z_scope.
 
@@ -142,6 +142,28 @@ Theorem C03_text_count_is_utf8 : forall a b junk g col lg lc,
               forget p = count_on (a ++ b) (forget pos) lg lc.
 Proof. exact rb_count_on_is_utf8. Qed.
 Print Assumptions C03_text_count_is_utf8.
+
+(* COMPOSITION WITH PROPERTY C19.  The pens of the model are the attribute maps (all ten
+   attributes, colours with their RGB8 secondaries) that C19 assigns to TickitPens
+   (denote p = PenSpec.lookup p); the model's merge and equivalence are what C19's model of
+   tickit_pen_copy / tickit_pen_equiv does to those maps (by C19_copy, C19_equiv_iff, C19_clear,
+   C19_clone_equiv): *)
+Theorem C03_pen_copy_is_C19 : forall dst src ow, PenProofs.wf src ->
+  denote (PenDefs.copy dst src ow) = pen_copy (denote dst) (denote src) ow.
+Proof. exact rb_pen_copy_is_C19. Qed.
+Print Assumptions C03_pen_copy_is_C19.
+
+Theorem C03_pen_equiv_is_C19 : forall x y, PenDefs.equiv x y = pen_equiv (denote x) (denote y).
+Proof. exact rb_pen_equiv_is_C19. Qed.
+Print Assumptions C03_pen_equiv_is_C19.
+
+Theorem C03_pen_new_is_C19 : forall g p, denote (PenDefs.pen_new g) = pen_empty /\ denote (PenDefs.clear p) = pen_empty.
+Proof. exact rb_pen_new_is_C19. Qed.
+Print Assumptions C03_pen_new_is_C19.
+
+Theorem C03_pen_clone_is_C19 : forall orig g, PenProofs.wf orig -> denote (PenDefs.clone orig g) = denote orig.
+Proof. exact rb_pen_clone_is_C19. Qed.
+Print Assumptions C03_pen_clone_is_C19.
 
 (* non-vacuity: a reachable state with a text span cut by a character next to a masked cell,
    inside a save bracket, meets the hypotheses *)
